@@ -342,6 +342,7 @@ def add_pragma_regular_expressions(dStyle):
             dStyle["pragma"]["patterns"]["single"] = []
 
         for types in list(dStyle["pragma"]["patterns"].keys()):
+            dStyle["pragma"]["regexp"].setdefault(types, [])
             for pragma in dStyle["pragma"]["patterns"][types]:
                 try:
                     dStyle["pragma"]["regexp"][types].append(re.compile(pragma))
